@@ -211,7 +211,11 @@ def register(prop, streams, monitor_kind):
 
 
 def monitor_request(kind, d, run):
-    return (kind, d.enc_cfg() + nested.enc_sval(run.states_after[0]) + common.enc_items(run.items))
+    try:
+        first = nested.enc_sval(run.states_after[0])
+    except Exception:
+        first = nested.enc_sval([])     # not a state value (the recorder has noted `odd-state`): the monitor starts from nothing
+    return (kind, d.enc_cfg() + first + common.enc_items(run.items))
 
 
 def judge_case(prop, stream_name, d, model_ans, runs, mon_answers, enum_states=False, full=None, mid=0):
@@ -246,7 +250,7 @@ def judge_case(prop, stream_name, d, model_ans, runs, mon_answers, enum_states=F
                     continue
                 out.append(Failure('monitor', clause, ccase, {'class': cls, 'monitor': a},
                                    signature='%s.%s' % (prop, clause)))
-        if prop == 'C02':
+        if prop == 'C02' and not any(b[0] == 'odd-state' for b in r.bad):      # (the recorder failure is reported above)
             for b in live_oracle(d, r):
                 out.append(Failure('monitor', 'oracle:' + b[0], ccase, {'class': cls, 'oracle': list(b)},
                                    signature='C02.oracle.' + b[0]))
